@@ -92,12 +92,25 @@ Theorem C08_stream_runners :
 Proof. exact machines_reachable. Qed.
 
 (* The channel is closed only after the subscriber's context was cancelled; when the consumer sees
-   the close it has received the complete stream up to its un-registration. *)
+   the close it has received the complete stream up to its un-registration - provided nothing was
+   dropped for it ([dropped x = false]).  [dropped] is set by a broadcast timeout (consumer slower than
+   5 s) and, since the forwarder repair of C18 (send-or-ctx.Done), also when the forwarder discards a
+   value AFTER the cancel because the wrapped channel is full (consumer not reading any more): a
+   cancelled subscriber that stopped reading gets a shorter stream, one that keeps reading gets
+   everything (the forwarder prefers the send and only gives a value up when it would block). *)
 Theorem C08_stream_closed : forall s i x,
   mreach s -> nth_error (subs s) i = Some x -> gotclosed x = true ->
   cancelled x = true /\ unsub x = true /\
   (dropped x = false -> got x = expected_stream (hist s) (reg_at x) (read_at x) (unsub_at x)).
 Proof. exact stream_closed_machine. Qed.
+
+(* A subscriber that keeps up loses nothing: everything it is owed has been received or is in flight
+   (wrapped channel, forwarder's hand, manager channel, broadcast in progress), in order. *)
+Theorem C08_stream_in_flight : forall s i x,
+  mreach s -> nth_error (subs s) i = Some x -> dropped x = false -> sg x = SLive ->
+  got x ++ wch x ++ olist (hand x) ++ bch x ++ (if memn i (pend s) then [cur s] else []) =
+  expected_stream (hist s) (reg_at x) (read_at x) (endp (length (hist s)) x).
+Proof. exact stream_in_flight_machine. Qed.
 
 Theorem C08_stream_closed_only_after_cancel : forall s i x,
   mreach s -> nth_error (subs s) i = Some x -> wclosed x = true -> cancelled x = true.
@@ -170,6 +183,7 @@ Print Assumptions C08_isrunning.
 Print Assumptions C08_stream.
 Print Assumptions C08_stream_runners.
 Print Assumptions C08_stream_closed.
+Print Assumptions C08_stream_in_flight.
 Print Assumptions C08_stream_closed_only_after_cancel.
 Print Assumptions C08_stream_close_progress.
 Print Assumptions C08_stream_partial.
